@@ -9,10 +9,10 @@ DEMO=$(ls $OUT/demo.py $OUT/demo.sh 2>/dev/null | head -1)
 if [ -n "$DEMO" ]; then
   echo "--- demo with the change (expect non-zero)"
   (cd $OUT && timeout 300 unshare -n sh -c "ip link set lo up; exec $( [ "${DEMO##*.}" = py ] && echo python3 || echo sh ) $DEMO" >/tmp/seed/$ID.demo_with.log 2>&1); echo "rc=$?"; tail -3 /tmp/seed/$ID.demo_with.log
-  git stash -q; cmake --build _build >/dev/null 2>&1
+  git diff > /tmp/seed/$ID.reapply.diff; git apply -R /tmp/seed/$ID.reapply.diff; cmake --build _build >/dev/null 2>&1
   echo "--- demo without the change (expect 0)"
   (cd $OUT && timeout 300 unshare -n sh -c "ip link set lo up; exec $( [ "${DEMO##*.}" = py ] && echo python3 || echo sh ) $DEMO" >/tmp/seed/$ID.demo_without.log 2>&1); echo "rc=$?"; tail -2 /tmp/seed/$ID.demo_without.log
-  git stash pop -q; cmake --build _build >/dev/null 2>&1
+  git apply /tmp/seed/$ID.reapply.diff; cmake --build _build >/dev/null 2>&1
 fi
 echo "--- property check against the change"
 cd /verif && VERIF_REPO=$WT python3 checks/run $ID --tier quick 2>&1 | grep "key:\|$ID quick\|HARNESS" | cut -c1-200 | head -12
